@@ -64,8 +64,12 @@ fn body<const FF: bool, const FIN: bool, const NOTAR: bool, const N2: bool, cons
     // CBMC's propositional reduction even on an empty pool (measured).  Its body is: finalized_slot, the three
     // collectors below, `assert!(slot.is_genesis() || !certs.is_empty())`, the event.  The solver checks the
     // collectors and that assertion's condition on their output.
-    #[cfg(not(kani))]
+    // Under Kani the hand-over to the channel (`send_votor_event`) is cut by a recording stub (`cut`).
     p_standstill(&pool);
+    #[cfg(kani)]
+    {
+        vcheck!(cut::calls() == 1 && cut::standstill(), "standstill recovery did not hand exactly one Standstill event to Votor");
+    }
 
     // what it hands over, collector by collector (the three private functions recover_from_standstill
     // concatenates into the event; under Kani the event itself - certificate arrays inside an enum payload -
@@ -115,6 +119,11 @@ fn body<const FF: bool, const FIN: bool, const NOTAR: bool, const N2: bool, cons
         }
         std::mem::forget(evs);
     }
+    #[cfg(kani)]
+    {
+        vcheck!(cut::slot() == fs + 1, "standstill event names the wrong slot");
+        vcheck!(cut::n_certs() == proof.len() + later.len() && cut::n_votes() == votes.len(), "the event does not carry the collectors' output");
+    }
     std::mem::forget(proof);
     std::mem::forget(later);
     std::mem::forget(votes);
@@ -129,6 +138,7 @@ macro_rules! b {
         #[cfg_attr(kani, kani::proof)]
         #[cfg_attr(kani, kani::stub(crate::crypto::aggsig::SecretKey::sign, crate::consensus::kani_fix::sign_stub))]
         #[cfg_attr(kani, kani::stub(log::max_level, crate::consensus::pool::kani_c18::log_off))]
+        #[cfg_attr(kani, kani::stub(crate::consensus::pool::PoolImpl::send_votor_event, crate::consensus::pool::kani_c18::cut::send_votor_event))]
         #[cfg_attr(kani, kani::unwind(6))]
         #[cfg_attr(verif_replay, test)]
         fn $name() {
@@ -144,6 +154,48 @@ b!(c18_bundle_genesis, false, true, false, true, false, true);
 b!(c18_bundle_fast, true, false, true, true, true, true);
 // slot 1 finalized by finalization + notarization
 b!(c18_bundle_slow, false, true, true, false, true, false);
+
+#[cfg(kani)]
+pub(crate) mod cut {
+    use super::*;
+    struct Ghost {
+        magic: [u64; 2],
+        calls: usize,
+        standstill: bool,
+        slot: u64,
+        n_certs: usize,
+        n_votes: usize,
+    }
+    static mut G: Ghost = Ghost { magic: [0xC18_5EED_0000_0001, 0x9E37_79B9_7F4A_7C15], calls: 0, standstill: false, slot: 0, n_certs: 0, n_votes: 0 };
+    pub(crate) fn calls() -> usize {
+        unsafe { G.calls }
+    }
+    pub(crate) fn standstill() -> bool {
+        unsafe { G.standstill }
+    }
+    pub(crate) fn slot() -> u64 {
+        unsafe { G.slot }
+    }
+    pub(crate) fn n_certs() -> usize {
+        unsafe { G.n_certs }
+    }
+    pub(crate) fn n_votes() -> usize {
+        unsafe { G.n_votes }
+    }
+    /// Stub for `PoolImpl::send_votor_event` (Kani only): records what is handed to Votor.
+    pub(crate) fn send_votor_event(_this: &PoolImpl, event: PoolEvent) {
+        unsafe {
+            G.calls += 1;
+            if let PoolEvent::Standstill(s, c, v) = &event {
+                G.standstill = true;
+                G.slot = s.inner();
+                G.n_certs = c.len();
+                G.n_votes = v.len();
+            }
+        }
+        std::mem::forget(event);
+    }
+}
 
 #[cfg(kani)]
 pub(crate) fn log_off() -> log::LevelFilter {
